@@ -6,6 +6,7 @@ import (
 	"encoding/hex"
 	"errors"
 	"fmt"
+	"os"
 	"regexp"
 	"runtime"
 	"sort"
@@ -564,6 +565,14 @@ func (s *Sim) noteFault(t *Task, alt string) {
 	}
 }
 
+// CountFault lets a harness that injects a fault kind of its own (outside the park-point alternatives) report how
+// often it fired.
+func (s *Sim) CountFault(kind string, n int) {
+	if n > 0 {
+		s.stats.Faults[kind] += n
+	}
+}
+
 // pickTask applies the run's scheduling mode.
 func (s *Sim) pickTask(rs []*Task) *Task {
 	if s.only != nil {
@@ -675,6 +684,11 @@ func (s *Sim) step() (progressed bool, err error) {
 		}
 		if s.strict {
 			s.diverge = fmt.Sprintf("step %d: recorded choice %q not available", s.steps.Load(), rec)
+			if os.Getenv("VERIF_DIVERGE_DEBUG") != "" {
+				for _, t := range rs {
+					fmt.Fprintf(os.Stderr, "DIVERGE %s; runnable %s at %s %s %s\n", s.diverge, t.Name, t.pp.Kind, t.pp.Op, t.pp.Key)
+				}
+			}
 			return false, ErrDiverged
 		}
 		// loose replay: fall through to the policy for this step
